@@ -298,6 +298,14 @@ crypt_gensalt_rn (const char *prefix, unsigned long count,
   /* typeof (internal_nrbytes) == typeof (h->nrbytes).  */
   unsigned char internal_nrbytes = 0;
 
+  /* A negative number of caller-supplied random bytes is invalid.
+     It must not reach the conversion to size_t below.  */
+  if (rbytes && nrbytes < 0)
+    {
+      errno = EINVAL;
+      return 0;
+    }
+
   /* If rbytes is 0, read random bytes from the operating system if
      possible.  */
   if (!rbytes)
